@@ -89,18 +89,22 @@ def calculate_sequence_locks(ctx, P):
     dH, dT = decl_of(f, H), decl_of(f, T)
     ctx.ob("CalculateSequenceLocks/init", "TWIN", "both minima start at -1 (no constraint)", dH is not None and dT is not None and match(["int", -1], dH.get("i"))
            and match(["int", -1], dT.get("i")), f.where)
-    lps = loops_in(f, "for")
+    lps = [lp for lp in loops_in(f) if lp.get("k") in ("for", "foreach")]
     if len(lps) != 1:
-        raise AnalysisBroken("CalculateSequenceLocks: expected exactly one for-loop over the inputs")
+        raise AnalysisBroken("CalculateSequenceLocks: expected exactly one loop over the inputs")
     lp = lps[0]
-    i, start, cond, inc = for_shape(lp, subst)
-    okl = start == "0" and cond == "%s < tx.vin.size()" % i and inc in ("%s++" % i, "++%s" % i) and not has_break(lp.get("b")) \
-        and not [w for w in writes_to_local(f, i) if w[1] not in ("post++", "++")]
-    ctx.ob("CalculateSequenceLocks/loop", "TWIN", "the input loop visits every index 0 .. vin.size()-1 without break", okl, "%s:%s" % (f.file, lp.get("l")), {"loop": [i, start, cond, inc]})
-    seq = "tx.vin[%s].nSequence" % i
-    ph = "prevHeights[%s]" % i
-    atoms = {"SIZES": "prevHeights.size() == tx.vin.size()", "V2": ("tx.version < 2", False), "FLAG": "1 & flags", "INRANGE": "%s < tx.vin.size()" % i,
-             "DISABLE": "2147483648 & %s" % seq, "TIME": "4194304 & %s" % seq}
+    info = loop_info(f, lp, subst)
+    if info["kind"] != "index":
+        raise AnalysisBroken("CalculateSequenceLocks: the input loop is not a counting loop (prevHeights needs the index)")
+    i = info["var"]
+    okl = info["start"] == "0" and "tx.vin" in info["ranges"] and info["complete"]
+    ctx.ob("CalculateSequenceLocks/loop", "TWIN", "the input loop visits every index 0 .. vin.size()-1 without break", okl, "%s:%s" % (f.file, lp.get("l")),
+           {"loop": [i, info["start"], info["cond"]], "complete": info["complete"]})
+    seq = elem_rx(info) + r"\.nSequence"
+    ph = r"prevHeights\[%s\]" % re.escape(i)
+    atoms = {"SIZES": "prevHeights.size() == tx.vin.size()", "V2": ("tx.version < 2", False), "FLAG": "1 & flags",
+             "DISABLE": re.compile(r"2147483648 & " + seq), "TIME": re.compile(r"4194304 & " + seq)}
+    norm = lambda fm: drop_loop_conds(fm, [info])
     early = [e for e in pairs if not F.implies(e.formula, F.atom("done(loop@%s)" % lp.get("l")))]
     late = [e for e in pairs if e not in early]
     okx = len(early) == 1 and len(late) == 1
@@ -108,24 +112,24 @@ def calculate_sequence_locks(ctx, P):
     if okx:
         check_equiv(ctx, early[0].formula, "SIZES && !(V2 && FLAG)", atoms, "CalculateSequenceLocks/gate", "TWIN",
                     "(-1,-1) is returned before the loop exactly when !(tx.version >= 2 && (flags & LOCKTIME_VERIFY_SEQUENCE))", "%s:%s" % (f.file, early[0].line))
-        check_equiv(ctx, late[0].formula, "SIZES && V2 && FLAG && !INRANGE", atoms, "CalculateSequenceLocks/final-exit", "TWIN",
+        check_equiv(ctx, norm(late[0].formula), "SIZES && V2 && FLAG", atoms, "CalculateSequenceLocks/final-exit", "TWIN",
                     "the computed minima are returned after the complete loop", "%s:%s" % (f.file, late[0].line))
     # writes to the two minima
-    anc = r"(?:ASSERT\()?block\.GetAncestor\(std::max\(" + re.escape(ph) + r" - 1, 0\)\)\)?\.GetMedianTimePast\(\)"
+    anc = r"(?:ASSERT\()?block\.GetAncestor\(std::max\(" + ph + r" - 1, 0\)\)\)?\.GetMedianTimePast\(\)"
     want = {
-        T: (re.compile(re.escape("%s = std::max(%s, (((65535 & %s) << 9) + " % (T, T, seq)) + anc + re.escape(") - 1)")), "SIZES && V2 && FLAG && INRANGE && !DISABLE && TIME",
+        T: (re.compile(re.escape("%s = std::max(%s, (((65535 & " % (T, T)) + seq + re.escape(") << 9) + ") + anc + re.escape(") - 1)")), "SIZES && V2 && FLAG && !DISABLE && TIME",
             "min time = max(min time, MTP(ancestor at max(coin height - 1, 0)) + ((nSequence & 0xffff) << 9) - 1), exactly for enabled time-based inputs"),
-        H: (re.compile(re.escape("%s = std::max(%s, ((65535 & %s) + %s) - 1)" % (H, H, seq, ph))), "SIZES && V2 && FLAG && INRANGE && !DISABLE && !TIME",
+        H: (re.compile(re.escape("%s = std::max(%s, ((65535 & " % (H, H)) + seq + re.escape(") + ") + ph + re.escape(") - 1)")), "SIZES && V2 && FLAG && !DISABLE && !TIME",
             "min height = max(min height, coin height + (nSequence & 0xffff) - 1), exactly for enabled height-based inputs"),
     }
     for name, (rx, spec, text) in want.items():
         ws = sites(f, lambda e, n=name: e[0] == "b" and e[1] in ASSIGN_OPS and match(["local", n], e[2]), P)
-        okw = len(ws) == 1
+        okw = len(ws) == 1 and ws[0].loops == [lp]
         k = F.key(F.expand(ws[0].expr, subst)) if ws else None
         okw = okw and rx.fullmatch(k) is not None
-        ctx.ob("CalculateSequenceLocks/update:%s" % name, "TWIN", text + " [single assignment, canonical term]", okw, ws[0].where if ws else f.where, {"term": k})
+        ctx.ob("CalculateSequenceLocks/update:%s" % name, "TWIN", text + " [single assignment inside the input loop, canonical term]", okw, ws[0].where if ws else f.where, {"term": k})
         if ws:
-            check_equiv(ctx, ws[0].formula(subst), spec, atoms, "CalculateSequenceLocks/update-cond:%s" % name, "TWIN", text + " [condition]", ws[0].where)
+            check_equiv(ctx, norm(ws[0].formula(subst)), spec, atoms, "CalculateSequenceLocks/update-cond:%s" % name, "TWIN", text + " [condition]", ws[0].where)
     for name in (H, T):
         extra = [w for w in writes_to_local(f, name) if w[1] != "="]
         ctx.ob("CalculateSequenceLocks/no-other-write:%s" % name, "TWIN", "%s is modified only by the max() update" % name, not extra, f.where)
@@ -151,28 +155,27 @@ def maturity(ctx, P):
     ex = exits(f, P, subst)
     acc = [e for e in ex if is_true_ret(e)]
     rej = [e for e in ex if not is_true_ret(e)]
-    lps = [lp for lp in loops_in(f, "for")]
-    if not lps:
-        raise AnalysisBroken("CheckTxInputs: input loop not found")
-    i = for_shape(lps[0], subst)[0]
-    coin = "inputs.AccessCoin(tx.vin[%s].prevout)" % i
-    atoms = {"CB": "%s.IsCoinBase()" % coin, "IMMATURE": "nSpendHeight - %s.nHeight < 100" % coin, "UNSPENT": ("%s.IsSpent()" % coin, False),
-             "HAVE": "inputs.HaveInputs(tx)", "INRANGE": "%s < tx.vin.size()" % i}
+    prem = [e for e in rej if (invalid_call(e.value) or (0, 0))[1] == "bad-txns-premature-spend-of-coinbase"]
+    if len(prem) != 1 or not prem[0].loops:
+        ctx.ob("Consensus::CheckTxInputs/rung:bad-txns-premature-spend-of-coinbase", "LADDER", "CheckTxInputs has exactly one premature-spend rejection, inside the input loop",
+               False, f.where, {"found": len(prem)})
+        return
+    info = loop_info(f, prem[0].loops[0], subst)
+    coin = r"inputs\.AccessCoin\(" + elem_rx(info) + r"\.prevout\)"
+    atoms = {"CB": re.compile(coin + r"\.IsCoinBase\(\)"), "IMMATURE": re.compile(r"nSpendHeight - " + coin + r"\.nHeight < 100"),
+             "UNSPENT": (re.compile(coin + r"\.IsSpent\(\)"), False), "HAVE": "inputs.HaveInputs(tx)"}
     # UNSPENT is a hard assert in the loop (HaveInputs was checked): the process aborts otherwise
-    lp = check_loop_rung(ctx, f, P, "bad-txns-premature-spend-of-coinbase", "UNSPENT && CB && IMMATURE", atoms, r"for\(0; %s < tx\.vin\.size\(\)\)" % i, acc,
-                         [e for e in rej if (invalid_call(e.value) or (0, 0))[1] == "bad-txns-premature-spend-of-coinbase"], subst=subst)
-    if lp is not None:
-        sh = for_shape(lp, subst)
-        ctx.ob("Consensus::CheckTxInputs/loop", "LADDER", "the input loop of CheckTxInputs visits every index 0 .. vin.size()-1", sh[1] == "0" and sh[3] in ("++%s" % i, "%s++" % i)
-               and not [w for w in writes_to_local(f, i) if w[1] not in ("post++", "++")], "%s:%s" % (f.file, lp.get("l")), {"loop": sh})
-    for e in rej:
+    lp = check_loop_rung(ctx, f, P, "bad-txns-premature-spend-of-coinbase", "UNSPENT && CB && IMMATURE", atoms, loop_key_rx(info), acc, prem, subst=subst)
+    ok = info["start"] == "0" and "tx.vin" in info["ranges"] and info["complete"]
+    ctx.ob("Consensus::CheckTxInputs/loop", "LADDER", "the input loop of CheckTxInputs visits every input of tx (range-for over tx.vin, or index 0 .. vin.size()-1 stepping by one)", ok,
+           "%s:%s" % (f.file, info["loop"].get("l")), {"kind": info["kind"], "range": info["ranges"], "start": info["start"], "complete": info["complete"]})
+    for e in prem:
         ic = invalid_call(e.value)
-        if ic and ic[1] == "bad-txns-premature-spend-of-coinbase":
-            f_, mapping, un = bound(drop_done(e.formula), atoms)
-            cex = F.counterexample(f_, F.parse("CB && IMMATURE"))
-            ok = cex is None and ic[0] == "TxValidationResult::TX_PREMATURE_SPEND"
-            ctx.ob("Consensus::CheckTxInputs/premature-only-if@L%s" % e.line, "LADDER", "the premature-spend rejection (TX_PREMATURE_SPEND) fires only for a coinbase coin with "
-                   "nSpendHeight - coin.nHeight < COINBASE_MATURITY", ok, "%s:%s" % (f.file, e.line), None if ok else {"result": ic[0], "counterexample": cex})
+        f_, mapping, un = bound(drop_done(e.formula), atoms)
+        cex = F.counterexample(f_, F.parse("CB && IMMATURE"))
+        ok = cex is None and ic[0] == "TxValidationResult::TX_PREMATURE_SPEND"
+        ctx.ob("Consensus::CheckTxInputs/premature-only-if@L%s" % e.line, "LADDER", "the premature-spend rejection (TX_PREMATURE_SPEND) fires only for a coinbase coin with "
+               "nSpendHeight - coin.nHeight < COINBASE_MATURITY", ok, "%s:%s" % (f.file, e.line), None if ok else {"result": ic[0], "counterexample": cex})
 
 
 # ---------------------------------------------------------------------------------------------- callers
@@ -224,25 +227,28 @@ def connect_block(ctx, P):
     if len(sl) != 1 or not sl[0].loops:
         raise AnalysisBroken("ConnectBlock: expected exactly one SequenceLocks call inside the transaction loop")
     subst = loop_subst(f, P, sl[0].loops[0])
+    txloop = sl[0].loops[0]
+    txinfo = loop_info(f, txloop, subst)
+    TX = r"\(?\*?\(?" + elem_rx(txinfo) + r"\)?\)?"
+    okt = txinfo["start"] == "0" and "block.vtx" in txinfo["ranges"] and txinfo["counted"]
+    ctx.ob("ConnectBlock/tx-loop", "PROVENANCE", "the transaction loop of ConnectBlock visits block.vtx from the first element, one by one", okt, "%s:%s" % (f.file, txloop.get("l")),
+           {"kind": txinfo["kind"], "range": txinfo["ranges"], "start": txinfo["start"]})
     # CheckTxInputs gets the height of the block being connected
     cti = sites(f, call_to("Consensus::CheckTxInputs"), P)
     ctx.floor("ConnectBlock -> CheckTxInputs", len(cti), 1)
     for s in cti:
         a = [F.key(F.expand(x, subst)) for x in call_args(s.expr)]
-        ok = len(a) == 5 and a[3] == "pindex.nHeight" and a[2] == "view" and a[0] in ("*block.vtx[i]", "block.vtx[i]", "*(block.vtx[i])")
-        ctx.ob("ConnectBlock/CheckTxInputs-args@L%s" % s.line, "PROVENANCE", "ConnectBlock calls CheckTxInputs(block.vtx[i], .., view, pindex->nHeight, ..): maturity is measured at the "
+        ok = len(a) == 5 and a[3] == "pindex.nHeight" and a[2] == "view" and re.fullmatch(TX, a[0]) is not None and s.loops and s.loops[0] is txloop
+        ctx.ob("ConnectBlock/CheckTxInputs-args@L%s" % s.line, "PROVENANCE", "ConnectBlock calls CheckTxInputs(<current transaction>, .., view, pindex->nHeight, ..): maturity is measured at the "
                "height of the block being connected", ok, s.where, {"args": a})
     s = sl[0]
-    txloop = s.loops[0]
-    iv = for_shape(txloop, subst)[0]
     a = call_args(s.expr)
     ak = [F.key(F.expand(x, subst)) for x in a]
-    okargs = len(a) == 4 and ak[0] in ("*block.vtx[%s]" % iv, "block.vtx[%s]" % iv) and a[1][0] == "local" and a[2][0] == "local" and ak[3] == "*pindex"
-    ctx.ob("ConnectBlock/SequenceLocks-args", "PROVENANCE", "ConnectBlock calls SequenceLocks(block.vtx[i], <flags local>, <heights local>, *pindex)", okargs, s.where, {"args": ak})
+    okargs = len(a) == 4 and re.fullmatch(TX, ak[0]) is not None and a[1][0] == "local" and a[2][0] == "local" and ak[3] == "*pindex"
+    ctx.ob("ConnectBlock/SequenceLocks-args", "PROVENANCE", "ConnectBlock calls SequenceLocks(<current transaction>, <flags local>, <heights local>, *pindex)", okargs, s.where, {"args": ak})
     if not okargs:
         return
     flags, heights = a[1][1], a[2][1]
-    tx = ak[0]
     # flags: 0, plus LOCKTIME_VERIFY_SEQUENCE iff CSV active at pindex
     d = decl_of(f, flags)
     ws = sites(f, lambda e: e[0] == "b" and e[1] in ASSIGN_OPS and match(["local", flags], e[2]), P)
@@ -253,36 +259,32 @@ def connect_block(ctx, P):
     if ws:
         check_equiv(ctx, own_formula(ws[0], subst), "CSV", {"CSV": "DeploymentActiveAt(*pindex, m_chainman, Consensus::DEPLOYMENT_CSV)"}, "ConnectBlock/locktime-flags-cond",
                     "PROVENANCE", "LOCKTIME_VERIFY_SEQUENCE is set exactly when DeploymentActiveAt(*pindex, CSV)", ws[0].where)
-    # heights: resized to vin.size() and filled for every j from the UTXO view, before the call, in the same iteration
+    # heights: resized to vin.size() and filled for every input from the UTXO view, before the call, in the same iteration
     hw = sites(f, lambda e: e[0] == "b" and e[1] in ASSIGN_OPS and is_expr(e[2]) and e[2][0] == "idx" and match(["local", heights], e[2][1]), P)
     okh, detail = False, {}
-    if len(hw) == 1 and len(hw[0].loops) == 2 and hw[0].loops[0] is txloop and hw[0].loops[1].get("k") == "for":
+    VIN = TX + r"\.vin"
+    if len(hw) == 1 and len(hw[0].loops) == 2 and hw[0].loops[0] is txloop:
         inner = hw[0].loops[1]
-        j, st, cond, inc = for_shape(inner, subst)
+        ii = loop_info(f, inner, subst)
         term = F.key(F.expand(hw[0].expr, subst))
-        want = "%s[%s] = view.AccessCoin(%s.vin[%s].prevout).nHeight" % (heights, j, tx.lstrip("*"), j)
-        want2 = "%s[%s] = view.AccessCoin((%s).vin[%s].prevout).nHeight" % (heights, j, tx, j)
-        detail = {"loop": [j, st, cond, inc], "term": term}
-        vin = "%s.vin.size()" % tx.lstrip("*")
-        uncond = F.equivalent(drop_done(in_loop_formula(hw[0], inner, subst)), F.to_formula(inner.get("c"), {k: v for k, v in subst.items() if k != j}))
-        okh = (st == "0" and cond.replace("(%s)" % tx, tx.lstrip("*")).replace(tx, tx.lstrip("*")) == "%s < %s" % (j, vin) and inc in ("%s++" % j, "++%s" % j)
-               and not has_break(inner.get("b")) and term.replace("(%s)" % tx, tx.lstrip("*")).replace(tx, tx.lstrip("*")) == want and uncond
-               and F.implies(s.formula(subst), F.atom("done(loop@%s)" % inner.get("l")))
-               and not [w for w in writes_to_local(f, j) if w[1] not in ("post++", "++")])
+        detail = {"loop": [ii["kind"], ii["var"], ii["start"], ii["ranges"]], "term": term}
+        if ii["kind"] == "index":
+            want = re.escape("%s[%s] = view.AccessCoin(" % (heights, ii["var"])) + elem_rx(ii) + re.escape(".prevout).nHeight")
+            uncond = F.equivalent(drop_loop_conds(drop_done(in_loop_formula(hw[0], inner, subst)), [ii]), F.T)
+            okh = (ii["start"] == "0" and ii["complete"] and any(re.fullmatch(VIN, r) for r in ii["ranges"]) and re.fullmatch(want, term) is not None and uncond
+                   and hw[0].expr[1] == "=" and F.implies(s.formula(subst), F.atom("done(loop@%s)" % inner.get("l"))))
     ctx.ob("ConnectBlock/prevheights", "PROVENANCE", "before SequenceLocks, prevheights[j] = view.AccessCoin(tx.vin[j].prevout).nHeight is stored unconditionally for every "
            "j = 0 .. vin.size()-1 of the same transaction", okh, hw[0].where if hw else f.where, detail)
     rs = sites(f, lambda e: e[0] == "mcall" and e[1] == "std::vector::resize" and match(["local", heights], e[2]), P)
     okr = len(rs) == 1 and rs[0].loops and rs[0].loops[0] is txloop and rs[0].line < s.line and \
-        F.key(F.expand(call_args(rs[0].expr)[0], subst)).replace("(%s)" % tx, tx.lstrip("*")).replace(tx, tx.lstrip("*")) == "%s.vin.size()" % tx.lstrip("*")
+        re.fullmatch(VIN + r"\.size\(\)", F.key(F.expand(call_args(rs[0].expr)[0], subst))) is not None
     ctx.ob("ConnectBlock/prevheights-size", "PROVENANCE", "prevheights is resized to tx.vin.size() in the same iteration before SequenceLocks", bool(okr),
            rs[0].where if rs else f.where)
     # the rung
     slk = F.key(F.expand(s.expr, subst))
-    ctik = F.key(F.expand(cti[0].expr, subst))
-    atoms = {"INRANGE": "%s < block.vtx.size()" % iv, "VALID": "state.IsValid()", "COINBASE": re.compile(r"\(?\*?\(?block\.vtx\[%s\]\)?\)?\.IsCoinBase\(\)" % iv),
-             "CTI": re.compile(r"Consensus::CheckTxInputs\(.*pindex\.nHeight, .*\)"), "FEESOK": re.compile(r"MoneyRange\(\w+\)"),
-             "HEIGHTSDONE": (re.compile(r"\w+ < .*vin\.size\(\)"), False), "SEQLOCKS": slk}
-    check_deferred_rung(ctx, f, P, "bad-txns-nonfinal", "BlockValidationResult::BLOCK_CONSENSUS", "INRANGE && VALID && !COINBASE && CTI && FEESOK && HEIGHTSDONE && !SEQLOCKS", atoms, subst)
+    atoms = {"VALID": "state.IsValid()", "COINBASE": re.compile(TX + r"\.IsCoinBase\(\)"),
+             "CTI": re.compile(r"Consensus::CheckTxInputs\(.*pindex\.nHeight, .*\)"), "FEESOK": re.compile(r"MoneyRange\(\w+\)"), "SEQLOCKS": slk}
+    check_deferred_rung(ctx, f, P, "bad-txns-nonfinal", "BlockValidationResult::BLOCK_CONSENSUS", "VALID && !COINBASE && CTI && FEESOK && !SEQLOCKS", atoms, subst)
     # verdict after the loop
     gen = re.compile(r".*hashGenesisBlock.*")
     check_deferred_accepts(ctx, f, P, "VALID || GENESIS", {"VALID": "state.IsValid()", "GENESIS": gen}, subst)
